@@ -2,84 +2,105 @@
     Property theorems only; each closed by [exact] of a lemma from Proofs/VCodeFacts.v.
     Panic freedom, time and memory of the real process are run-time facts: these
     theorems cover the arithmetic and guard logic of the modelled fragments
-    (Model/VCode.v); the classes of Model/KnownC17.v are genuine defects. *)
+    (Model/VCode.v); the classes of Model/KnownC17.v are genuine defects that remain.
+    Repaired in /repo and therefore stated unconditionally here: blank id (b116ae5),
+    version gaps (719e6a5, f842f41), wide padding (d5a9e2d). *)
 From Rocfl Require Import Base.Bytes Model.VersionNum Model.VCode Model.KnownC17 Proofs.VCodeFacts.
 Open Scope N_scope.
 
-(** ** vnums_cost_linear: cost of validate_version_nums (serde.rs:1291-1334) *)
+(** ** vnums_cost_linear: cost of validate_version_nums (serde.rs:1312-1382, after the repairs
+    719e6a5 and f842f41) *)
 
-(** the loop (both build modes, any list) emits exactly [vnums_cost] errors *)
-Theorem C17_vnums_cost_exact : forall dbg fuel vs,
-  1 + nlen vs <= U32MAX ->
-  Forall (fun v => vn_number v + nlen vs < U32MAX /\ vn_number v <= N.of_nat fuel) vs ->
-  validate_version_nums dbg fuel vs = Ok (vnums_cost (map vn_number vs)).
+(** the loop, in both build modes and for EVERY list of u32 version numbers (any order, any
+    padding), returns normally - no panic, the built-in fuel MAX_MISSING_VERSIONS_LISTED of the
+    inner loop is never exhausted - and records exactly the closed form [vnums_fast] *)
+Theorem C17_vnums_exact : forall dbg vs,
+  Forall (fun v => vn_number v <= U32MAX) vs ->
+  validate_version_nums dbg vs = Ok (vnums_fast (map vn_number vs) 1 c0).
 Proof. exact validate_version_nums_exact. Qed.
-Print Assumptions C17_vnums_cost_exact.
+Print Assumptions C17_vnums_exact.
 
-(** for the ordered key set of a versions block: highest number - number of keys (sum of the gaps) *)
-Theorem C17_vnums_cost_sum_of_gaps : forall vs, incr_from 1 vs -> vs <> [] ->
-  vnums_cost vs = last vs 0 - nlen vs.
-Proof. exact vnums_cost_sorted. Qed.
-Print Assumptions C17_vnums_cost_sum_of_gaps.
-
-Theorem C17_vnums_cost_linear : forall vs,
-  c17_version_gap vs = false -> vnums_cost vs <= GAP_BOUND * nlen vs.
-Proof. exact vnums_cost_linear_outside_class. Qed.
+(** linear cost, all inputs: at most 100 E010 errors and 101 loop iterations per key
+    (100 = MAX_MISSING_VERSIONS_LISTED read from the source, see C17_vnums_constant) *)
+Theorem C17_vnums_cost_linear : forall dbg vs,
+  Forall (fun v => vn_number v <= U32MAX) vs ->
+  exists c, validate_version_nums dbg vs = Ok c /\
+            c_errors c <= 100 * nlen vs /\ c_iters c <= 101 * nlen vs /\
+            c_errors c = vnums_cost (map vn_number vs).
+Proof. exact validate_version_nums_linear. Qed.
 Print Assumptions C17_vnums_cost_linear.
 
-(** refuted for the pinned code: no constant bounds the cost per key *)
-Theorem C17_vnums_cost_linear_refuted : forall c, c + 3 < U32MAX ->
-  exists vs, nlen vs = 1 /\ incr_from 1 vs /\ c * nlen vs < vnums_cost vs /\
-    forall dbg fuel, last vs 0 <= N.of_nat fuel ->
-      validate_version_nums dbg fuel (map (fun n => mkV n 0) vs) = Ok (vnums_cost vs).
-Proof. exact vnums_cost_not_linear. Qed.
-Print Assumptions C17_vnums_cost_linear_refuted.
+(** the same bound for whatever the constant is *)
+Theorem C17_vnums_cost_linear_generic : forall vs,
+  vnums_cost vs <= N.max 1 MAX_LISTED * nlen vs /\ vnums_iters vs <= (MAX_LISTED + 1) * nlen vs.
+Proof. exact vnums_cost_linear_generic. Qed.
+Print Assumptions C17_vnums_cost_linear_generic.
 
-Theorem C17_known_v400000000 :
-  vnums_cost [400000000] = 399999999 /\ c17_version_gap [400000000] = true /\
-  forall dbg fuel, 400000000 <= N.of_nat fuel ->
-    validate_version_nums dbg fuel [mkV 400000000 0] = Ok 399999999.
-Proof. exact v400000000_witness. Qed.
-Print Assumptions C17_known_v400000000.
+Theorem C17_vnums_constant : MAX_LISTED = 100.
+Proof. exact max_listed_pinned. Qed.
+Print Assumptions C17_vnums_constant.
+
+(** for the "versions" object of an inventory, whatever its keys and values are: the set handed
+    to validate_version_nums (serde.rs:615) makes it return normally with a cost linear in the
+    number of keys, and the E010 count is the one the model of the visitor records *)
+Theorem C17_versions_block_cost : forall dbg l nums keys e ab,
+  versions_value l = (nums, keys, e, ab) ->
+  exists c, validate_version_nums dbg nums = Ok c /\
+            c_errors c = vnums_cost (map vn_number nums) /\
+            c_errors c <= 100 * nlen l /\ c_iters c <= 101 * nlen l.
+Proof. exact versions_value_cost. Qed.
+Print Assumptions C17_versions_block_cost.
+
+(** the bound is attained (a gap of exactly 100 numbers is listed one by one); a larger gap,
+    also the former known inputs v400000000 and v4294967295, costs one error *)
+Theorem C17_vnums_cost_bound_tight :
+  vnums_cost [101] = 100 * nlen [101] /\ vnums_iters [101] = 101 * nlen [101] /\
+  vnums_cost [102] = 1 /\ vnums_cost [1; 102] = 100 /\ vnums_cost [1; 103] = 1 /\
+  vnums_cost [400000000] = 1 /\ vnums_cost [U32MAX] = 1 /\
+  vnums_cost [1; 2; U32MAX] = 1.
+Proof. exact vnums_cost_bound_tight. Qed.
+Print Assumptions C17_vnums_cost_bound_tight.
+
+(** historical note, NOT the current code: the closed form of the loop before commit 719e6a5
+    ([vnums_cost_before_fix], one error per missing number) had no linear bound *)
+Theorem C17_history_vnums_cost_before_fix_not_linear : forall c,
+  exists vs, nlen vs = 1 /\ incr_from 1 vs /\ c * nlen vs < vnums_cost_before_fix vs /\
+             vnums_cost vs <= 100 * nlen vs.
+Proof. exact vnums_cost_before_fix_not_linear. Qed.
+Print Assumptions C17_history_vnums_cost_before_fix_not_linear.
 
 (** no E010 from the loop => the keys are exactly v1..vn (used by the get_version guard) *)
-Theorem C17_vnums_zero_cost_contiguous : forall vs, incr_from 1 vs -> vnums_cost vs = 0 ->
+Theorem C17_vnums_zero_cost_contiguous : forall vs, incr_from 1 vs ->
+  Forall (fun v => v <= U32MAX) vs -> vnums_cost vs = 0 ->
   vs = iota 1 (List.length vs).
 Proof. exact vnums_cost_zero_contiguous. Qed.
 Print Assumptions C17_vnums_zero_cost_contiguous.
 
-(** ** inventory_new_guarded: serde.rs:395-500 against inventory.rs:95-131 *)
+(** ** inventory_new_guarded: serde.rs:401-513 against inventory.rs:95-131 *)
 
+(** no error recorded => an inventory is returned: all the [.unwrap()]s of serde.rs:500-512 are
+    guarded, for every document (since commit b116ae5 also for "id": "") *)
 Theorem C17_inventory_new_guarded : forall items r e,
-  visit items = (r, e) -> has_errors e = false ->
-  (forall i, first_id items = Some i -> c17_blank_id i = false) -> r = PInv.
+  visit items = (r, e) -> has_errors e = false -> r = PInv.
 Proof. exact visit_guarded. Qed.
 Print Assumptions C17_inventory_new_guarded.
 
-(** what is guarded: all six Options are Some, algorithm, content directory and head pass;
-    the call fails exactly for the empty id *)
+(** what is guarded: all six Options are Some, the id is not blank, algorithm, content directory
+    and head pass; Inventory::new succeeds *)
 Theorem C17_inventory_new_guard_details : forall items st,
   run p0 items = inl st -> has_errors (snd (finish st)) = false ->
   exists id a h nums,
-    p_id st = Some id /\ p_type st = true /\ p_alg st = Some a /\ alg_allowed a = true /\
+    p_id st = Some id /\ id <> [] /\ p_type st = true /\ p_alg st = Some a /\ alg_allowed a = true /\
     p_head st = Some h /\ p_manifest st = true /\ p_versions st = Some (nums, nums) /\
     vset_mem h nums = true /\
     (forall d, p_cdir st = Some d -> cdir_kind d = None) /\
-    inventory_new id a h (p_cdir st) nums = (if is_nil id then Err else Ok tt).
+    inventory_new id a h (p_cdir st) nums = Ok tt.
 Proof. exact visit_args. Qed.
 Print Assumptions C17_inventory_new_guard_details.
 
-Theorem C17_visit_no_panic : forall items,
-  (forall i, first_id items = Some i -> c17_blank_id i = false) -> fst (visit items) <> PPanicked.
+Theorem C17_visit_no_panic : forall items, fst (visit items) <> PPanicked.
 Proof. exact visit_no_panic. Qed.
 Print Assumptions C17_visit_no_panic.
-
-Theorem C17_known_blank_id_refuted :
-  fst (visit (IId (SStr []) :: ok_tail)) = PPanicked /\
-  has_errors (snd (visit (IId (SStr []) :: ok_tail))) = false /\
-  c17_blank_id [] = true.
-Proof. exact blank_id_panics. Qed.
-Print Assumptions C17_known_blank_id_refuted.
 
 (** ** get_version_guarded, content_paths_guarded: mod.rs:607-641, 1534-1707 *)
 
@@ -102,7 +123,7 @@ Theorem C17_known_empty_manifest_entry_refuted :
 Proof. exact empty_manifest_entry_panics. Qed.
 Print Assumptions C17_known_empty_manifest_entry_refuted.
 
-(** ** pretty_print_total: types.rs:1343-1356 *)
+(** ** pretty_print_total: types.rs:1350-1361 *)
 
 Theorem C17_pretty_print_total : forall dbg len,
   dbg = false \/ len <> 0 -> pps_panics dbg len = false.
@@ -127,7 +148,7 @@ Theorem C17_known_empty_set_reaches_pretty_print :
 Proof. exact empty_set_reaches_pretty_print. Qed.
 Print Assumptions C17_known_empty_set_reaches_pretty_print.
 
-(** ** content_paths_iter_terminates: mod.rs:2092-2113 *)
+(** ** content_paths_iter_terminates: mod.rs:2103-2124 *)
 
 Theorem C17_content_paths_iter_terminates : forall dbg has fuel n w,
   1 <= n -> n <= N.of_nat fuel + 1 ->
@@ -142,7 +163,7 @@ Theorem C17_content_paths_iter_needs_number_equality :
 Proof. exact cpi_walk_strict_eq_panics. Qed.
 Print Assumptions C17_content_paths_iter_needs_number_equality.
 
-(** ** iterator_continues: mod.rs:1912-2007 *)
+(** ** iterator_continues: mod.rs:1923-2018 *)
 
 Theorem C17_iterator_continues : forall fuel cur stack,
   (lsize cur + ssize stack < fuel)%nat ->
@@ -170,28 +191,42 @@ Theorem C17_known_nonconflict_quadratic : forall n,
 Proof. exact nonconflict_cost_quadratic. Qed.
 Print Assumptions C17_known_nonconflict_quadratic.
 
-Theorem C17_display_total_short : forall s v,
-  vparse s = Ok v -> blen s <= FMT_WIDTH_MAX + 1 -> vdisplay_panics v = false.
-Proof. exact vdisplay_total_short. Qed.
-Print Assumptions C17_display_total_short.
-
-Theorem C17_known_wide_padding :
-  exists v, c17_wide_padding v = true /\ vwf v = true /\ vn_number v = 1.
-Proof. exact wide_padding_witness. Qed.
-Print Assumptions C17_known_wide_padding.
+(** Display for VersionNum (types.rs:396-406, after commit d5a9e2d): the text written for a
+    parsed key or head is at most 10 characters longer than the key, in at most that many writes *)
+Theorem C17_display_linear : forall s v, vparse s = Ok v ->
+  blen (vdisplay v) <= blen s + 10 /\ vdisplay_writes v <= blen s + 1.
+Proof. exact vdisplay_linear. Qed.
+Print Assumptions C17_display_linear.
 
 (** ** non-vacuity *)
 
 Example C17_nonvacuous_vnums :
-  incr_from 1 [1; 2; 3; 5; 9] /\ c17_version_gap [1; 2; 3; 5; 9] = false /\
+  incr_from 1 [1; 2; 3; 5; 9] /\
   vnums_cost [1; 2; 3; 5; 9] = 4 /\
-  validate_version_nums true 10 [mkV 1 0; mkV 2 0; mkV 3 0; mkV 5 0; mkV 9 0] = Ok 4 /\
+  validate_version_nums true [mkV 1 0; mkV 2 0; mkV 3 0; mkV 5 0; mkV 9 0] = Ok (mkC 4 9) /\
+  validate_version_nums false [mkV 1 3; mkV 400000000 3; mkV U32MAX 0] = Ok (mkC 2 3) /\
   vnums_padding [mkV 1 0; mkV 2 2] = (true, false).
 Proof. exact vnums_example. Qed.
 
 Example C17_nonvacuous_visit :
   visit (IId (SStr (b "urn:x")) :: ok_tail) = (PInv, [(E010, 0)]).
 Proof. exact nonblank_id_ok. Qed.
+
+(** the formerly known inputs are ordinary verdicts of the model now *)
+Example C17_blank_id_is_an_error :
+  visit (IId (SStr []) :: ok_tail) = (PNoInv, [(E037, 1); (E010, 0)]) /\
+  visit (ok_tail ++ [IId (SStr [])]) = (PNoInv, [(E010, 0); (E037, 1)]).
+Proof. exact blank_id_is_an_error. Qed.
+
+Example C17_absurd_keys_verdict :
+  visit [IId (SStr (b "urn:x")); IType (SStr (b "t")); IAlg (SStr (b "sha512")); IHead (SStr (b "v1"));
+         IManifest CObj; IVersions (VObj [(b "v1", BSome); (b "v400000000", BSome); (b "v4294967295", BSome)])]
+  = (PNoInv, [(E010, 2); (E040, 1)]).
+Proof. exact absurd_keys_verdict. Qed.
+
+Example C17_display_wide :
+  blen (vdisplay (mkV 1 65536)) = 65537 /\ vdisplay_writes (mkV 1 65536) = 65537.
+Proof. exact vdisplay_wide_example. Qed.
 
 Example C17_nonvacuous_cross :
   exists root v1, good root /\ good v1 /\ contiguous root /\ dir_ok root (1, v1) /\
